@@ -2,16 +2,16 @@ SPECIFICATION Spec
 CONSTANTS
   NVB = 1
   InitLog <- EmptyLog
-  MaxSeq = 3
+  MaxSeq = 2
   Keys = {"user"}
-  Kinds = {"mut", "sys", "adv"}
+  Kinds = {"mut", "adv"}
   OldEvents = FALSE
   BadEvents = FALSE
   FoUuid <- Fo10
   Savers = {"p"}
   MaxSaves = 0
   MaxCrash = 0
-  MaxAcks = 1
+  MaxAcks = 0
   MaxGen = 2
   MaxNotify = 0
   MaxEnds = 0
